@@ -40,18 +40,24 @@ fn main() {
         }
         "clipboard" => {
             let vals: [u16; 10] = [0x41, 0, 0xFF, 0xD7FF, 0xD800, 0xDBFF, 0xDC00, 0xDFFF, 0xE000, 0xFFFF];
-            let mut data = vec![0u8];
-            data.extend(0i32.to_le_bytes());
-            data.extend(0i32.to_le_bytes());
-            data.extend((vals.len() as u32).to_le_bytes());
-            data.extend(1u32.to_le_bytes());
-            for v in vals {
-                data.extend(v.to_le_bytes());
-                data.extend([0u8; 12]);
-            }
-            let l = Layer::from_clipboard_data(&data).unwrap();
-            for x in 0..vals.len() as i32 {
-                std::hint::black_box(l.get_char((x, 0)).ch as u32);
+            // every value under several attribute words of the record (0x8000 = INVISIBLE marks cells outside a selection)
+            for attr in [0u16, 0x8000, 0xC000, 0x0001, 0xFFFF] {
+                let mut data = vec![0u8];
+                data.extend(0i32.to_le_bytes());
+                data.extend(0i32.to_le_bytes());
+                data.extend((vals.len() as u32).to_le_bytes());
+                data.extend(1u32.to_le_bytes());
+                for v in vals {
+                    data.extend(v.to_le_bytes());
+                    data.extend(attr.to_le_bytes());
+                    data.extend([0u8; 10]);
+                }
+                if let Some(l) = Layer::from_clipboard_data(&data) {
+                    for x in 0..vals.len() as i32 {
+                        std::hint::black_box(l.get_char((x, 0)).ch as u32);
+                        std::hint::black_box(l.lines[0].chars[x as usize].ch as u32);
+                    }
+                }
             }
         }
         "font" => {
